@@ -61,6 +61,7 @@ type Property struct {
 	NonTrivial func(ep *Episode) bool
 	Rule       string
 	Standalone func(t *testing.T, p *Property) // properties with their own episode loop (C04 layer Q, ...)
+	Derive     func(ep *Episode, r *simrt.Rand, tier string) []Cfg // further configurations to run with the same program and tape (crash sweep)
 	NoRerun    bool                            // violations cannot be re-run in the same process (race reports are deduplicated by the detector)
 }
 
@@ -218,58 +219,25 @@ func exploreMain(p *Property) {
 		cfg, pr := p.Gen(r, *fTier)
 		cfg.Prop = p.ID
 		ep := runEpisode(p, cfg, pr, seed, nil, false)
-		sum.Episodes++
-		sum.Steps += ep.Res.Steps
-		sum.SimTimeMs += int64(ep.Res.Now / time.Millisecond)
-		sum.Switches += ep.Switches
-		sum.LibSwitches += ep.LibSwitches
-		sum.Verdicts[ep.Res.Verdict.String()]++
-		sum.Strategies[[]string{"rw", "pct", "np"}[cfg.Strat%3]]++
-		collectFaults(sum, ep)
-		nt := ep.LibSwitches > 0 && (p.NonTrivial == nil || p.NonTrivial(ep))
-		if nt {
-			sum.NonTrivial++
-			fingers[ep.Finger^fingerOfProgram(ep)] = true
-		}
-		if len(sum.Samples) < 2 && nt {
-			sum.Samples = append(sum.Samples, renderSample(ep, seed))
-		}
-		if ep.Res.Verdict == simrt.VInternal {
-			sum.Infra = ep.Res.Msg
+		stop := account(p, sum, fingers, ep, seed)
+		if stop {
 			break
 		}
-		seenC := map[string]bool{}
-		for _, v := range ep.Viols {
-			if !p.owns(v.Clause) {
-				sum.Foreign[v.Clause]++
+		if p.Derive != nil && p.firstOwned(ep.Viols) == nil {
+			for _, c2 := range p.Derive(ep, r, *fTier) {
+				if time.Now().After(deadline.Add(30 * time.Second)) {
+					break
+				}
+				ep2 := runEpisode(p, c2, pr, seed, ep.Res.Tape, false)
+				sum.Extra["derived_episodes"]++
+				if account(p, sum, fingers, ep2, seed) {
+					stop = true
+					break
+				}
 			}
-			if !seenC[v.Clause] {
-				seenC[v.Clause] = true
-				sum.Extra["clause:"+v.Clause]++
+			if stop {
+				break
 			}
-			if v.Clause == "C19.a" {
-				sum.Extra["race:"+v.Msg]++
-			}
-		}
-		sum.Extra["harness_only_race_reports"] += ep.HarnessRaces
-		if *fCensus {
-			continue
-		}
-		v := p.firstOwned(ep.Viols)
-		if v == nil {
-			continue
-		}
-		vo := handleViolation(p, ep, seed, *v, sum)
-		if vo.Known != "" {
-			sum.KnownHits[vo.Known]++
-			continue
-		}
-		sum.Viols = append(sum.Viols, vo)
-		if !*fKeepGoing {
-			break
-		}
-		if len(sum.Viols) > 20 {
-			break
 		}
 	}
 	for f := range fingers {
@@ -280,6 +248,62 @@ func exploreMain(p *Property) {
 	if *fOut != "" {
 		writeJSON(*fOut, sum)
 	}
+}
+
+// account books one finished episode; it returns true when exploration must stop.
+func account(p *Property, sum *Summary, fingers map[uint64]bool, ep *Episode, seed uint64) bool {
+	cfg := ep.Cfg
+	sum.Episodes++
+	sum.Steps += ep.Res.Steps
+	sum.SimTimeMs += int64(ep.Res.Now / time.Millisecond)
+	sum.Switches += ep.Switches
+	sum.LibSwitches += ep.LibSwitches
+	sum.Verdicts[ep.Res.Verdict.String()]++
+	sum.Strategies[[]string{"rw", "pct", "np"}[cfg.Strat%3]]++
+	collectFaults(sum, ep)
+	nt := ep.LibSwitches > 0 && (p.NonTrivial == nil || p.NonTrivial(ep))
+	if nt {
+		sum.NonTrivial++
+		fingers[ep.Finger^fingerOfProgram(ep)^uint64(cfg.CrashAt)*0x9e3779b97f4a7c15] = true
+	}
+	if len(sum.Samples) < 2 && nt {
+		sum.Samples = append(sum.Samples, renderSample(ep, seed))
+	}
+	if ep.Res.Verdict == simrt.VInternal {
+		sum.Infra = ep.Res.Msg
+		return true
+	}
+	seenC := map[string]bool{}
+	for _, v := range ep.Viols {
+		if !p.owns(v.Clause) {
+			sum.Foreign[v.Clause]++
+		}
+		if !seenC[v.Clause] {
+			seenC[v.Clause] = true
+			sum.Extra["clause:"+v.Clause]++
+		}
+		if v.Clause == "C19.a" {
+			sum.Extra["race:"+v.Msg]++
+		}
+	}
+	sum.Extra["harness_only_race_reports"] += ep.HarnessRaces
+	if *fCensus {
+		return false
+	}
+	v := p.firstOwned(ep.Viols)
+	if v == nil {
+		return false
+	}
+	vo := handleViolation(p, ep, seed, *v, sum)
+	if vo.Known != "" {
+		sum.KnownHits[vo.Known]++
+		return false
+	}
+	sum.Viols = append(sum.Viols, vo)
+	if !*fKeepGoing {
+		return true
+	}
+	return len(sum.Viols) > 20
 }
 
 func fingerOfProgram(ep *Episode) uint64 {
@@ -323,6 +347,8 @@ func collectFaults(sum *Summary, ep *Episode) {
 			sum.Faults["stop_calls"]++
 		case opPause, opPauseAndWait:
 			sum.Faults["pause_calls"]++
+		case opSpawn:
+			sum.Faults["consumers_spawned"]++
 		}
 	}
 	for _, s := range wd.subs {
